@@ -10,6 +10,9 @@ CONFIGS = [
     ("s", 4, "s", 1, 4), ("s", 1, "s", 4, 4), ("s", 500, "ms", 8, 4), ("ms", 1, "s", 1, 1000),
     ("ms", 2000, "us", 4, 8), ("s", 1, "s", 1000, 1000), ("ms", 500, "ms", 1, 500), ("us", 1, "ms", 1, 1000),
     (None, None, None, 1000, 1000),
+    # periods written as decimal fractions, integer time-stamps: the period means what is written (0.3 s = 300 ms), so gaps exactly
+    # on the closed tolerance band [P(1-tol), P(1+tol)] are inside it
+    ("ms", 0.3, "s", 1, 300), ("us", 0.7, "ms", 1, 700), ("ms", 1.1, "s", 1, 1100),
 ]
 TOLS = [(0, 1), (1, 10), (1, 4), (1, 2), (1, 1), None]
 
@@ -101,6 +104,8 @@ def main():
             ts.append(ts[-1] + rng.choice(classes))
         S = 1
         phi = rng.choice([phi0, un("once", phi0), bi("since", phi0, pred("le", var("x"), const(2))), un("histT", phi0, 0, 2)])
+        if isinstance(pnum, float) and "histT" in ops_of(phi):
+            phi = un("once", phi0)
         w = gen_trace(rng, ["x"], N, S)
         online = rng.random() < 0.5
         fac = rng.choice(["StlDiscreteTimeSpecification", "StlDiscreteTimeOnlineSpecification" if online else "StlDiscreteTimeOfflineSpecification"])
